@@ -549,10 +549,32 @@ impl Ctx {
 // Transform an expression under a given substitution; queue any needed instances
 fn mono_expr(ctx: &mut Ctx, e: &core::Expr, s: &Subst) -> MonoExpr {
     match e.clone() {
-        core::Expr::EVar { name, ty } => MonoExpr::EVar {
-            name,
-            ty: subst_ty(&ty, s),
-        },
+        core::Expr::EVar { name, ty } => {
+            let ty = subst_ty(&ty, s);
+            // A generic function used as a value (not as the function of a call, which the
+            // ECall arm handles) is specialised at the type it is used at.
+            let generic = ctx
+                .orig_fns
+                .get(&name)
+                .filter(|callee| fn_is_generic(callee))
+                .map(|callee| {
+                    let fn_ty = Ty::TFunc {
+                        params: callee.params.iter().map(|(_, t)| t.clone()).collect(),
+                        ret_ty: Box::new(callee.ret_ty.clone()),
+                    };
+                    (callee.name.clone(), fn_ty)
+                });
+            if let Some((generic_func_name, generic_fn_ty)) = generic {
+                let mut use_subst: Subst = IndexMap::new();
+                if unify(&generic_fn_ty, &ty, &mut use_subst).is_ok()
+                    && !use_subst.values().any(has_tparam)
+                {
+                    let spec = ctx.ensure_instance(&generic_func_name, use_subst);
+                    return MonoExpr::EVar { name: spec, ty };
+                }
+            }
+            MonoExpr::EVar { name, ty }
+        }
         core::Expr::EPrim { value, ty } => {
             let ty = subst_ty(&ty, s);
             MonoExpr::EPrim { value, ty }
@@ -665,7 +687,14 @@ fn mono_expr(ctx: &mut Ctx, e: &core::Expr, s: &Subst) -> MonoExpr {
             ty: subst_ty(&ty, s),
         },
         core::Expr::ECall { func, args, ty } => {
-            let new_func = mono_expr(ctx, &func, s);
+            // The function of a call is specialised below, from the argument types.
+            let new_func = match func.as_ref() {
+                core::Expr::EVar { name, ty } => MonoExpr::EVar {
+                    name: name.clone(),
+                    ty: subst_ty(ty, s),
+                },
+                func => mono_expr(ctx, func, s),
+            };
             let new_args: Vec<MonoExpr> = args.iter().map(|a| mono_expr(ctx, a, s)).collect();
             let new_ty = subst_ty(&ty, s);
 
